@@ -27,11 +27,22 @@ RULE = (
     "on the built card (tuples rebuilt). (dictlike) DictLike subclasses built with dataclasses.make_dataclass from a "
     "type grammar (int, float, str, bool, two Enums, npt.NDArray, XGrid, dict, plain dataclass, Optional[T], List[T], "
     "Tuple[scalars], nested DictLike; depth <= 2) with matching values (numpy scalars at random numeric leaves, tricky "
-    "YAML strings, None for optionals), instantiated through the constructor. Oracle: .raw contains only "
+    "YAML strings, np.str_ strings, str-/int-mixin Enums, None for optionals incl. Optional[T] fields with a non-None "
+    "default holding an explicit None), instantiated through the constructor. (eko) the cards are stored in an EKO "
+    "through the public API (EKO.create.load_cards.build; half of the cases with linear interpolation; the flag "
+    "optionally set by attribute assignment after construction, use_fhmruvv optionally an explicit None set by "
+    "assignment), and eko.theory_card / eko.operator_card are read while the EKO is being built and after close + "
+    "EKO.read / EKO.edit / both: they must equal the stored cards built directly by the harness (grid nodes, xgrid.log "
+    "= configs.interpolation_is_log = declared flag, every other field), and commons.interpolator(served card) must "
+    "have the declared settings. Oracle: .raw contains only "
     "dict/list/str/int/float/bool/None and yaml.safe_dump -> yaml.safe_load returns it unchanged; from_dict of the "
     "loaded data equals the original field by field (numpy leaves by value, arrays by shape / dtype kind / value, "
     "XGrid by nodes and log flag, containers by class); runner.commons.interpolator(card) (also on the reloaded card, "
-    "which is what the runner reads back from the archive) has the declared degree, nodes and interpolation_is_log. "
+    "which is what the runner reads back from the archive) has the declared degree, nodes and interpolation_is_log, also "
+    "when evaluated alternately with a twin card differing only in interpolation_is_log (card, twin, card, twin or twin "
+    "first), and its basis functions at an interior point equal the exact Lagrange reference of the declared type; "
+    "the card built by from_dict reproduces every value of its input (numpy leaves by value, enum names as values; "
+    "explicit None kept except matching_order=None which asks for the default). "
     "Non-trivial = a card differing from ekobox.cards.example in >= 3 leaf values, or any case with a numpy leaf / "
     "array field / linear (log=False) grid; distinct by the whole case."
 )
@@ -82,8 +93,14 @@ def _st_scalar(draw, st, t, allow_np=True):
 def _draw_type(draw, st, depth):
     kinds = SCALARS + ["enum_s", "enum_i", "enum_str", "enum_int", "ndarray", "ndarray", "xgrid", "dict", "plain"]
     if depth > 0:
-        kinds = kinds + ["opt", "opt", "list", "tuple", "nested"]
+        kinds = kinds + ["opt", "opt", "optd", "optd", "list", "tuple", "nested"]
     k = draw(st.sampled_from(kinds))
+    if k == "optd":  # Optional[T] = <non-None default>: an explicit None is a value, not a request for the default
+        inner = draw(st.sampled_from(SCALARS + ["enum_s", "enum_i", "enum_str", "enum_int"]))
+        dflt = _draw_value(draw, st, inner)
+        if "np" in dflt:
+            dflt["np"] = None
+        return ["optd", inner, dflt]
     if k == "opt":
         inner = _draw_type(draw, st, depth - 1)
         return inner if not isinstance(inner, str) and inner[0] == "opt" else ["opt", inner]  # Optional[Optional[T]] is Optional[T]
@@ -129,6 +146,8 @@ def _draw_value(draw, st, t):
         if t == "plain":
             return {"i": draw(st.integers(-9, 9)), "f": draw(st.floats(-10, 10))}
         raise ValueError(t)
+    if t[0] == "optd":
+        return None if draw(st.booleans()) else _draw_value(draw, st, t[1])
     if t[0] == "opt":
         return None if draw(st.integers(0, 2)) == 0 else _draw_value(draw, st, t[1])
     if t[0] == "list":
@@ -142,8 +161,23 @@ def strategy(tier):
     from hypothesis import strategies as st
 
     @st.composite
-    def cards(draw):
+    def st_settings_none(draw):
         s = draw(sc.st_settings())
+        if draw(st.integers(0, 3)) == 0:
+            s["use_fhmruvv"] = None  # Optional[bool] = True holding an explicit None
+        return s
+
+    @st.composite
+    def eko(draw):
+        s = draw(st_settings_none())
+        if draw(st.booleans()):
+            s["is_log"] = False  # the interesting half: linear interpolation
+        return dict(kind="eko", s=s, flag_by_attr=draw(st.booleans()), none_by_attr=draw(st.booleans()),
+                    reopen=draw(st.sampled_from(["read", "edit", "edit-read"])))
+
+    @st.composite
+    def cards(draw):
+        s = draw(st_settings_none())
         leaves = [("theory", p, k) for p, k in sc.leaf_paths(sc.raw_theory(s))]
         leaves += [("operator", p, k) for p, k in sc.leaf_paths(sc.raw_operator(s))]
         # the only free string of the cards; from_dict turns any str subclass into str, so only assignment keeps it
@@ -164,7 +198,7 @@ def strategy(tier):
             fields.append([t, _draw_value(draw, st, t)])
         return dict(kind="dictlike", fields=fields)
 
-    return st.one_of(cards(), cards(), dictlike())
+    return st.one_of(cards(), cards(), dictlike(), dictlike(), eko())
 
 
 # ----------------------------------------------------------------------------- dict-like construction
@@ -217,15 +251,30 @@ def _ann(t, counter):
     if isinstance(t, str):
         return {"int": int, "float": float, "str": str, "bool": bool, "enum_s": Colour, "enum_i": Level, "enum_str": Kind, "enum_int": Rank,
                 "ndarray": npt.NDArray, "xgrid": interpolation.XGrid, "dict": dict, "plain": PlainDC}[t]
-    if t[0] == "opt":
+    if t[0] in ("opt", "optd"):
         return typing.Optional[_ann(t[1], counter)]
     if t[0] == "list":
         return typing.List[_ann(t[1], counter)]
     if t[0] == "tuple":
         return typing.Tuple[tuple(_ann(x, counter) for x in t[1])]
-    anns = [_ann(x, counter) for x in t[1]]
     counter[0] += 1
-    return dataclasses.make_dataclass(f"Gen{counter[0]}", [(f"g{i}", a) for i, a in enumerate(anns)], bases=(DictLike,))
+    return _make_class(f"Gen{counter[0]}", "g", t[1], counter)
+
+
+def _make_class(name, prefix, types, counter):
+    """DictLike subclass with fields <prefix>i; fields with a default (\"optd\") are declared last, as dataclasses require."""
+    from eko.io.dictlike import DictLike
+
+    fields = []
+    for i, t in enumerate(types):
+        a = _ann(t, counter)
+        if not isinstance(t, str) and t[0] == "optd":
+            dflt = _val(t[1], None, t[2], dict(np=set(), none=set()))
+            fields.append((1, (f"{prefix}{i}", a, dataclasses.field(default=dflt))))
+        else:
+            fields.append((0, (f"{prefix}{i}", a)))
+    fields = [f for _, f in sorted(fields, key=lambda p: p[0])]
+    return dataclasses.make_dataclass(name, fields, bases=(DictLike,))
 
 
 def _val(t, ann, v, info):
@@ -259,6 +308,11 @@ def _val(t, ann, v, info):
         if t == "plain":
             return PlainDC(v["i"], v["f"])
         raise ValueError(t)
+    if t[0] == "optd":
+        if v is None:
+            info["none"].add("with-default:" + t[1])
+            return None
+        return _val(t[1], None, v, info)
     if t[0] == "opt":
         if v is None:
             info["none"].add(t[1] if isinstance(t[1], str) else t[1][0])
@@ -271,8 +325,8 @@ def _val(t, ann, v, info):
         return [_val(t[1], typing.get_args(ann)[0], x, info) for x in v]
     if t[0] == "tuple":
         return tuple(_val(x, None, y, info) for x, y in zip(t[1], v))
-    subs = [f.type for f in dataclasses.fields(ann)]
-    return ann(*[_val(x, a, y, info) for x, a, y in zip(t[1], subs, v)])
+    subs = {f.name: f.type for f in dataclasses.fields(ann)}
+    return ann(**{f"g{i}": _val(x, subs[f"g{i}"], y, info) for i, (x, y) in enumerate(zip(t[1], v))})
 
 
 # ----------------------------------------------------------------------------- oracle
@@ -346,7 +400,9 @@ def _roundtrip(res, what, obj, cls):
         if "xgrid log flag" in d:
             res.fail(f"{ID}/xgrid-log-lost/{what}", f"after raw -> YAML -> from_dict: {d}")
         elif ": NoneType None -> " in d:
-            res.fail(f"{ID}/{what}/optional-none-coerced/{d.rsplit(' -> ', 1)[1].split(' ')[0]}", f"after raw -> YAML -> from_dict: {d}")
+            tname = d.rsplit(" -> ", 1)[1].split(" ")[0]
+            tname = tname if tname in ("str", "bool", "int", "float") else "enum"
+            res.fail(f"{ID}/{what}/optional-none-coerced/{tname}", f"after raw -> YAML -> from_dict: {d}")
         else:
             res.fail(f"{ID}/{what}/field-differs", f"after raw -> YAML -> from_dict: {d}")
     return back
@@ -415,6 +471,128 @@ def _check_interpolator(res, card, tag, declared, deg, is_log, first=True):
         )
 
 
+def _canon(x):
+    if isinstance(x, dict):
+        return {k: _canon(v) for k, v in x.items()}
+    if isinstance(x, (list, tuple)):
+        return [_canon(v) for v in x]
+    return sc._norm_leaf(x)
+
+
+def _check_input_kept(res, name, s, raw_in, card):
+    """The card built by from_dict carries the values of its input (a reference built by from_dict alone is blind)."""
+    plain = dict(s, enum_by_name=False)
+    want = _canon(sc.raw_theory(plain) if name == "theory" else sc.raw_operator(plain))
+    # numeric leaves as given in the (possibly numpy-substituted) input; enums in their canonical (value) spelling
+    given = _canon(raw_in)
+    for path, _ in sc.leaf_paths(want):
+        sc.set_path(want, path, sc.get_path(given, path))
+    try:
+        got = card.raw
+    except Exception:  # noqa: BLE001 - reported by the round-trip oracle
+        return
+    if want.get("matching_order", 0) is None:
+        want.pop("matching_order")  # None asks for the documented default (order - 1)
+    bad = _missing(want, got, ())
+    for path, w, g in bad[:3]:
+        res.fail(f"{ID}/cards/input-not-kept/{path[0]}",
+                 f"{type(card).__name__}.from_dict(input): input{list(path)} = {w!r} but the card holds {g!r}")
+
+
+def _missing(want, got, path):
+    """Entries of ``want`` that ``got`` does not reproduce (extra keys of ``got`` are defaults, allowed)."""
+    out = []
+    if isinstance(want, dict):
+        if not isinstance(got, dict):
+            return [(path, want, got)]
+        for k, v in want.items():
+            if k not in got:
+                out.append((path + (k,), v, "<missing>"))
+            else:
+                out += _missing(v, got[k], path + (k,))
+        return out
+    if isinstance(want, list):
+        if not isinstance(got, list) or len(got) != len(want):
+            return [(path, want, got)]
+        for i, (a, b) in enumerate(zip(want, got)):
+            out += _missing(a, b, path + (i,))
+        return out
+    if not sc.plain_equal(want, sc._norm_leaf(got)):
+        out.append((path, want, got))
+    return out
+
+
+def _check_eko(case):
+    """Cards handed out by an EKO (fresh, reopened, edited) equal the stored ones; the interpolator built from them too."""
+    import pathlib
+    import shutil
+    import tempfile
+
+    from eko import interpolation
+    from eko.io.runcards import OperatorCard, TheoryCard
+    from eko.io.struct import EKO
+
+    s = case["s"]
+    res = CaseResult()
+    res.classes = ["kind=eko", f"is_log={s['is_log']}", f"flag_by_attr={case['flag_by_attr']}", f"reopen={case['reopen']}",
+                   f"use_fhmruvv={s['use_fhmruvv']}", f"none_by_attr={case['none_by_attr']}", f"grid={s['grid_kind']}"]
+    res.nontrivial = (not s["is_log"]) or s["use_fhmruvv"] is None or case["flag_by_attr"]
+    raw_th, raw_op = sc.raw_theory(s), sc.raw_operator(s)
+    if case["flag_by_attr"]:
+        raw_op["configs"]["interpolation_is_log"] = not s["is_log"]
+    if case["none_by_attr"] and s["use_fhmruvv"] is None:
+        raw_th.pop("use_fhmruvv")
+    try:
+        th, op = TheoryCard.from_dict(raw_th), OperatorCard.from_dict(raw_op)
+    except Exception as e:  # noqa: BLE001
+        res.fail(exc_bucket(f"{ID}/cards/from_dict-input", e), f"from_dict raised {e!r}")
+        return res
+    if case["flag_by_attr"]:
+        op.configs.interpolation_is_log = s["is_log"]  # as tests/ekobox/test_cards.py and the tutorials do
+    if case["none_by_attr"] and s["use_fhmruvv"] is None:
+        th.use_fhmruvv = None
+    # what the stored cards declare, built directly (not through the loader under test)
+    exp_th = copy.deepcopy(th)
+    exp_th.use_fhmruvv = True if s["use_fhmruvv"] == sc.ABSENT else s["use_fhmruvv"]
+    exp_op = copy.deepcopy(op)
+    exp_op.xgrid = interpolation.XGrid(sorted(s["xgrid"]), log=s["is_log"])
+    declared = [float(x) for x in s["xgrid"]]
+
+    def served(ev, stage):
+        try:
+            got_th, got_op = ev.theory_card, ev.operator_card
+        except Exception as e:  # noqa: BLE001
+            res.fail(exc_bucket(f"{ID}/eko/cards-call", e), f"{stage}: reading the cards of the EKO raised {e!r}")
+            return
+        for d in sc.differences(exp_th, got_th, "theory_card")[:4]:
+            res.fail(f"{ID}/eko/served-theory-card-differs/{d.split(':')[0].split('[')[0]}", f"{stage}: stored vs served: {d}")
+        for d in sc.differences(exp_op, got_op, "operator_card")[:4]:
+            what = "xgrid-log" if "xgrid log flag" in d else d.split(":")[0].split("[")[0]
+            res.fail(f"{ID}/eko/served-operator-card-differs/{what}", f"{stage}: stored vs served: {d}")
+        # what the computation would build from the served card (runner.parts._managers)
+        _check_interpolator(res, got_op, f"card served by the EKO ({stage})", declared, s["deg"], s["is_log"])
+
+    d = pathlib.Path(tempfile.mkdtemp(prefix="c40-"))
+    old_tmp = tempfile.tempdir
+    try:
+        (d / "tmp").mkdir()
+        tempfile.tempdir = str(d / "tmp")
+        path = d / "e.tar"
+        with EKO.create(path) as builder:
+            ev = builder.load_cards(th, op).build()
+            served(ev, "while being built")
+        if case["reopen"] in ("edit", "edit-read"):
+            with EKO.edit(path) as ev:
+                served(ev, "reopened with EKO.edit")
+        if case["reopen"] in ("read", "edit-read"):
+            with EKO.read(path) as ev:
+                served(ev, "reopened with EKO.read" + (" after an edit session" if case["reopen"] == "edit-read" else ""))
+    finally:
+        tempfile.tempdir = old_tmp
+        shutil.rmtree(d, ignore_errors=True)
+    return res
+
+
 def _check_cards(case):
     from eko import interpolation
     from eko.io.runcards import OperatorCard, TheoryCard
@@ -434,6 +612,8 @@ def _check_cards(case):
         except Exception as e:  # noqa: BLE001
             res.fail(exc_bucket(f"{ID}/cards/from_dict-input", e), f"{cls.__name__}.from_dict raised {e!r} on {str(raws[name])[:500]}")
             return res
+    for name in ("theory", "operator"):
+        _check_input_kept(res, name, s, raws[name], objs[name])
     for sub in case["subs"]:
         if sub["how"] == "attr":
             v = sc.get_path(objs[sub["card"]], sub["path"])
@@ -488,22 +668,18 @@ def _check_cards(case):
 
 
 def _check_dictlike(case):
-    from eko.io.dictlike import DictLike
-
     res = CaseResult()
     counter = [0]
     info = dict(np=set(), array=False, linear=False, none=set(), mixin=False)
-    anns, vals = [], []
-    for t, v in case["fields"]:
-        a = _ann(t, counter)
-        anns.append(a)
-        vals.append(_val(t, a, v, info))
-    cls = dataclasses.make_dataclass("GenTop", [(f"f{i}", a) for i, a in enumerate(anns)], bases=(DictLike,))
-    obj = cls(*vals)
+    types = [t for t, _ in case["fields"]]
+    cls = _make_class("GenTop", "f", types, counter)
+    subs = {f.name: f.type for f in dataclasses.fields(cls)}
+    obj = cls(**{f"f{i}": _val(t, subs[f"f{i}"], v, info) for i, (t, v) in enumerate(case["fields"])})
     tops = [t if isinstance(t, str) else t[0] for t, _ in case["fields"]]
     res.classes = ["kind=dictlike"] + sorted({f"field={t}" for t in tops}) + sorted(f"np={n}" for n in info["np"]) + sorted(
         f"none-for={n}" for n in info["none"])
-    res.nontrivial = bool(info["np"]) or info["array"] or info["linear"] or info["mixin"]
+    res.nontrivial = bool(info["np"]) or info["array"] or info["linear"] or info["mixin"] or any(
+        n.startswith("with-default") for n in info["none"])
     _roundtrip(res, "dictlike", obj, cls)
     return res
 
@@ -511,4 +687,6 @@ def _check_dictlike(case):
 def check_case(case):
     if case["kind"] == "cards":
         return _check_cards(case)
+    if case["kind"] == "eko":
+        return _check_eko(case)
     return _check_dictlike(case)
